@@ -29,7 +29,8 @@ func checkExternal(v map[string]any, p tree.Path) error {
 	if !ok {
 		return nil
 	}
-	if !b.(bool) {
+	// with SkipInterpolation the schema-valid spelling `external: "true"` has not been cast to a boolean yet
+	if external, isBool := b.(bool); !isBool || !external {
 		return nil
 	}
 
